@@ -26,6 +26,8 @@ Decides:
                    check_next(ordinary item) is false (table).
  H help is output  a failed adjacent group hands the caller its own scope back (a help flag typed before the group is still found: stdout / 0,
                    shared with C10); the completion decision is taken after tokenizing (shared with C10).
+ H scope / answer   an adjacent command hands back the scope it was entered with (items behind its block - a help flag - stay visible); once the
+                   word being completed is in hand check_complete always answers (a completion request never falls through to the program body).
 Does not decide: byte equality of the text across the process boundary."""
 import re
 from core import *
